@@ -28,7 +28,7 @@ VERIF = os.path.dirname(HERE)
 CACHE = os.environ.get('OPTREE_VERIF_CACHE') or os.path.join(VERIF, '.cache')
 CLANG = 'clang++-14'
 PYBIND_INC = '/venv/lib/python3.12/site-packages/torch/include'
-IR_VERSION = '19'
+IR_VERSION = '20'
 
 CONFIGS = {
     # name: (CPython include dir, extra flags)
@@ -414,6 +414,7 @@ class _TUBuilder:
                 body = self.conv(c)
                 self._lamparent = saved
                 resolve_bool_locals(body)
+                hoist_else_after_exit(body)
                 merge_split_guards(body)
             else:
                 self._locskip(c)
@@ -831,6 +832,69 @@ def merge_split_guards(body):
                             changed = True
                             continue
                     i += 1
+
+
+def _always_exits(stmt):
+    """the statement list ends by leaving: its last effective statement is a return / throw /
+    continue / break, or an if / else both of whose arms end that way"""
+    es = _effective(stmt)
+    if not es:
+        return False
+    e = es[-1]
+    while e.kind == 'ExprWithCleanups' and e.kids:
+        e = e.kids[0]
+    if e.kind in ('ReturnStmt', 'CXXThrowExpr', 'ContinueStmt', 'BreakStmt'):
+        return True
+    if e.kind == 'IfStmt' and len(e.kids) >= 3 and e.kids[2] is not None and not (e.x or {}).get('hasInit') \
+            and not (e.x or {}).get('hasVar'):
+        return _always_exits(e.kids[1]) and _always_exits(e.kids[2])
+    return False
+
+
+def hoist_else_after_exit(body):
+    """No else after a branch that always leaves: `if (c) { ...; return x; } else { REST }` is shown
+    as `if (c) { ...; return x; }` followed by REST in the enclosing block.  Control reaches REST
+    exactly when c is false either way, so the rules read one form whichever way the code was
+    written (`else if` chains after exiting arms become a sequence of guards)."""
+    if body is None:
+        return
+
+    def plain_with_else(n):
+        x = n.x or {}
+        return n.kind == 'IfStmt' and len(n.kids) >= 3 and n.kids[2] is not None and \
+            not x.get('hasInit') and not x.get('hasVar') and not x.get('isConstexpr') and not x.get('constexpr')
+
+    def rewrite_list(kids):
+        i = 0
+        while i < len(kids):
+            k = kids[i]
+            if k is not None and plain_with_else(k) and _always_exits(k.kids[1]):
+                els = k.kids[2]
+                k.kids = k.kids[:2]
+                k.x = dict(k.x or {}, hasElse=False)
+                tail = list(els.kids) if els.kind == 'CompoundStmt' else [els]
+                kids[i + 1:i + 1] = tail
+            i += 1
+
+    def visit(n):
+        for k in n.kids:
+            if k is not None and k.kind != 'LambdaExpr':
+                visit(k)
+        if n.kind == 'CompoundStmt':
+            rewrite_list(n.kids)
+            return
+        # a conditional that is the whole body of a loop / case / branch: give it a block
+        for idx, k in enumerate(n.kids):
+            if k is not None and plain_with_else(k) and _always_exits(k.kids[1]) and \
+                    n.kind in ('ForStmt', 'WhileStmt', 'DoStmt', 'CXXForRangeStmt', 'CaseStmt', 'DefaultStmt',
+                               'IfStmt', 'LabelStmt') and \
+                    not (n.kind == 'IfStmt' and idx == 0):
+                blk = Node('CompoundStmt')
+                blk.file, blk.line, blk.col = k.file, k.line, k.col
+                blk.kids = [k]
+                rewrite_list(blk.kids)
+                n.kids[idx] = blk
+    visit(body)
 
 
 def _is_constant(k):
